@@ -162,6 +162,16 @@ Definition appends_ok (bps bef bwake btracks bpadded brf : ablk) : bool :=
   body_ok AtAll nopar fam_padded 0 bpadded &&
   body_ok AtAll nopar [] 1 brf.
 
+(** the statements of the `_appendData` template, by what they do to the file: the body must be a straight line that extends
+    the dataset once and then writes once (an `if (size == 0) return;` or a retry loop would make the number of records a call
+    adds depend on something else than its [size]); the index arithmetic of that line is C10's (Gen_H5Index) *)
+Inductive adstmt := DExtend | DWrite | DOther | DBranch | DReturn | DLoop.
+Definition appenddata_ok (l : list adstmt) : bool :=
+  match filter (fun s => match s with DOther => false | _ => true end) l with
+  | [DExtend; DWrite] => true
+  | _ => false
+  end.
+
 (** does a body mention an opaque condition at all (reported, not required) *)
 Fixpoint cond_opaque (c : acond) : list Z :=
   match c with
